@@ -494,50 +494,11 @@ func C10(c *Ctx) {
 	r.Floor("R10.2", "selection callbacks compared", len(tables), 2)
 	r.Floor("R10.2", "selection sites behind the changed-value predicate", nPred, 3)
 
+	r.Rule("R10.8", "the cache a later block reads through holds what the database will hold (shared with C13 R13.4): FlushDirtyData hands the committed dirty set to the account cache on every path, every dirty key of an account enters that account's state cache (deleted keys as tombstones), and a reverted account creation leaves no cache entry; otherwise the next block's origin values - and with them the selection of changed keys that is hashed into the state root - differ between a node that reads through the cache and one that reopened its database.")
+	c.cacheFill("R10.8")
 	// R10.4 balances are immutable values
-	r.Rule("R10.4", "no in-place arithmetic on stored balances: the destination operand of a big.Int operation (z in z.Add/Sub/Mul/Div/Set..(x, y)) in ledger, executor, contracts and VM code is never a value obtained from a balance getter (GetBalance / the origin or dirty account's Balance field); mutating it changes the origin record behind the change detection, so the new balance is neither journaled nor hashed into the state root.")
-	nBig := 0
-	for _, fn := range c.P.ModuleFuncs(true) {
-		pk := core.PkgOf(fn)
-		if !(pk == ledgerPkg || strings.HasPrefix(pk, "internal/executor") || strings.HasPrefix(pk, "pkg/vm")) {
-			continue
-		}
-		for _, call := range core.Calls(fn) {
-			n := core.CalleeName(call)
-			if !strings.HasPrefix(n, "(*math/big.Int).") {
-				continue
-			}
-			op := strings.TrimPrefix(n, "(*math/big.Int).")
-			switch op {
-			case "Add", "Sub", "Mul", "Div", "Mod", "Set", "SetUint64", "SetInt64", "SetString", "Neg", "Quo", "Rem", "Exp", "Lsh", "Rsh":
-			default:
-				continue
-			}
-			nBig++
-			z := call.Common().Args[0]
-			shared := ""
-			for _, o := range append(core.Origins(z), z) {
-				o = core.Strip(o)
-				if cc, ok := o.(*ssa.Call); ok {
-					if ob := core.CalleeObj(cc); ob != nil && (ob.Name() == "GetBalance" || ob.Name() == "GetEVMBalance") {
-						shared = "the result of " + ob.Name() + "()"
-					}
-				}
-				if _, f, base, ok := core.FieldOf(o); ok && f == "Balance" {
-					if _, f2, _, ok2 := core.FieldOf(base); ok2 && (f2 == "originAccount" || f2 == "dirtyAccount") {
-						shared = "the account record's Balance field"
-					}
-				}
-			}
-			if shared != "" {
-				r.Bad("R10.4", shortFn(fn)+": big.Int."+op+" in place", c.P.Pos(call.Pos()), "arithmetic writes its result into "+shared+": the stored (origin) balance object is modified behind the change detection, so the account is not journaled and the state root does not cover the new balance")
-			}
-		}
-	}
-	r.Floor("R10.4", "big.Int operations inspected", nBig, 10)
-	if nBig > 0 {
-		r.OK("R10.4", "big.Int destinations are fresh values", "", fmt.Sprintf("%d operations inspected", nBig))
-	}
+	r.Rule("R10.4", balanceInPlaceText)
+	c.balanceInPlace("R10.4")
 
 	// R10.3
 	if fn := c.P.Fn("internal/ledger.(*SimpleAccount).getStateJournalAndComputeHash"); fn != nil {
@@ -639,5 +600,107 @@ func (c *Ctx) commitKeyDiscipline(rule string) {
 		okp, okd := len(ops[kind]["Put"]) > 0, len(ops[kind]["Delete"]) > 0
 		r.Check(okp && okd, rule, "Commit: "+kind+" data is both written and deleted under its constructor", c.P.Pos(commit.Pos()), "Put and Delete present for kind "+kind,
 			"SimpleLedger.Commit has no "+map[bool]string{true: "Delete", false: "Put"}[okp]+" for "+kind+" data under the kind's key constructor: removals (or writes) of that kind never reach the database")
+	}
+}
+
+const balanceInPlaceText = "no in-place arithmetic on stored balances: the destination operand of a big.Int operation (z in z.Add/Sub/Mul/Div/Set..(x, y)) in ledger, executor, contracts and VM code is never a value obtained from a balance getter (GetBalance / the origin or dirty account's Balance field) - directly, or as a *big.Int parameter that some caller fills with such a value; mutating it changes the origin record behind the change detection, so the new balance is neither journaled nor hashed into the state root, and the journal's 'previous balance' (what a revert, a rollback or the start-up recovery restores) is the modified one."
+
+// balanceInPlace emits the shared rule (C10 R10.4, C12 R12.7, C14 R14.7, C01 R01.6) under the given rule id.
+func (c *Ctx) balanceInPlace(rule string) {
+	r := c.R
+	inScope := func(fn *ssa.Function) bool {
+		pk := core.PkgOf(fn)
+		return pk == ledgerPkg || strings.HasPrefix(pk, "internal/executor") || strings.HasPrefix(pk, "pkg/vm")
+	}
+	sharedOrigin := func(z ssa.Value) string {
+		for _, o := range append(core.Origins(z), z) {
+			o = core.Strip(o)
+			if cc, ok := o.(*ssa.Call); ok {
+				if ob := core.CalleeObj(cc); ob != nil && (ob.Name() == "GetBalance" || ob.Name() == "GetEVMBalance") {
+					return "the result of " + ob.Name() + "()"
+				}
+			}
+			if _, f, base, ok := core.FieldOf(o); ok && f == "Balance" {
+				if _, f2, _, ok2 := core.FieldOf(base); ok2 && (f2 == "originAccount" || f2 == "dirtyAccount") {
+					return "the account record's Balance field"
+				}
+			}
+		}
+		return ""
+	}
+	// static call sites per callee, for destinations that are parameters
+	callers := map[*ssa.Function][]ssa.CallInstruction{}
+	var fns []*ssa.Function
+	for _, fn := range c.P.ModuleFuncs(true) {
+		if !inScope(fn) {
+			continue
+		}
+		fns = append(fns, fn)
+		for _, call := range core.Calls(fn) {
+			if g := core.StaticCallee(call); g != nil {
+				callers[g] = append(callers[g], call)
+			}
+		}
+	}
+	// viaParam: is parameter pi of g filled, by some caller (two levels), with a stored balance?
+	var viaParam func(g *ssa.Function, pi, d int) string
+	viaParam = func(g *ssa.Function, pi, d int) string {
+		for _, call := range callers[g] {
+			args := call.Common().Args
+			if call.Common().IsInvoke() || pi >= len(args) {
+				continue
+			}
+			if s := sharedOrigin(args[pi]); s != "" {
+				return s + ", handed to " + shortFn(g) + " at " + c.P.Pos(call.Pos())
+			}
+			if d < 2 {
+				for _, o := range append(core.Origins(args[pi]), args[pi]) {
+					if p, ok := core.Strip(o).(*ssa.Parameter); ok && p.Parent() != nil {
+						if k := paramIndex(p.Parent(), p); k >= 0 {
+							if s := viaParam(p.Parent(), k, d+1); s != "" {
+								return s
+							}
+						}
+					}
+				}
+			}
+		}
+		return ""
+	}
+	nBig := 0
+	for _, fn := range fns {
+		for _, call := range core.Calls(fn) {
+			n := core.CalleeName(call)
+			if !strings.HasPrefix(n, "(*math/big.Int).") {
+				continue
+			}
+			op := strings.TrimPrefix(n, "(*math/big.Int).")
+			switch op {
+			case "Add", "Sub", "Mul", "Div", "Mod", "Set", "SetUint64", "SetInt64", "SetString", "Neg", "Quo", "Rem", "Exp", "Lsh", "Rsh":
+			default:
+				continue
+			}
+			nBig++
+			z := call.Common().Args[0]
+			shared := sharedOrigin(z)
+			if shared == "" {
+				for _, o := range append(core.Origins(z), z) {
+					if p, ok := core.Strip(o).(*ssa.Parameter); ok && p.Parent() == fn {
+						if k := paramIndex(fn, p); k >= 0 {
+							if s := viaParam(fn, k, 0); s != "" {
+								shared = "its parameter " + p.Name() + ", which is " + s
+							}
+						}
+					}
+				}
+			}
+			if shared != "" {
+				r.Bad(rule, shortFn(fn)+": big.Int."+op+" in place", c.P.Pos(call.Pos()), "arithmetic writes its result into "+shared+": the stored (origin) balance object is modified behind the change detection, so the account is not journaled and the state root does not cover the new balance; the journal records the modified value as the previous balance")
+			}
+		}
+	}
+	r.Floor(rule, "big.Int operations inspected", nBig, 10)
+	if nBig > 0 {
+		r.OK(rule, "big.Int destinations are fresh values", "", fmt.Sprintf("%d operations inspected", nBig))
 	}
 }
